@@ -492,6 +492,12 @@ def pre_family():
         ('and', B('forall', J(('AG', ('EF', ('and', V(), W0)))), 'L0'), B('forall', J(('AG', ('EF', ('and', V(), W0)))))),
         ('or', ('and', Q, ('EX', P)), ('and', ('EX', P), ('prop', 'V3'))),
         B('bind', ('and', ('and', B('bind', ('AX', V())), B('bind', ('and', ('EF', V()), V()))), V())),
+        # twins that differ only in one operator / quantifier / label / proposition (compared literally)
+        ('and', ('and', ('EW', W0, Q), ('not', ('AW', W0, Q))), ('and', ('EU', W0, Q), ('AU', W0, Q))),
+        ('and', ('and', ('and', W0, Q), ('or', W0, Q)), ('and', ('xor', W0, Q), ('and', ('imp', W0, Q), ('iff', W0, Q)))),
+        ('and', ('and', ('EX', Q), ('AX', Q)), ('and', ('and', ('EF', Q), ('AF', Q)), ('and', ('and', ('EG', Q), ('AG', Q)), ('not', Q)))),
+        ('and', B('bind', ('AX', V())), ('and', B('exists', ('AX', V())), B('forall', ('AX', V())))),
+        ('and', ('and', P, Q), ('and', ('and', W0, W1), ('and', ('true',), ('false',)))),
     ]
 
 class _First:
